@@ -2,6 +2,7 @@ package gen
 
 import (
 	"fmt"
+	"seehuhn.de/go/postscript/funit"
 
 	"seehuhn.de/go/sfnt/glyph"
 	"seehuhn.de/go/sfnt/opentype/anchor"
@@ -201,6 +202,21 @@ var GposSimple = []Simple{
 			BaseCov:   cov(GA),
 			MarkArray: []markarray.Record{{Class: 0, Table: anchor.Table{X: 4, Y: 5}}},
 			BaseArray: [][]anchor.Table{{{X: 200, Y: 600}}},
+		}}
+	}},
+	{"GPOS2.2 classes 1 and 3 in use, class 2 without a glyph", 2, func() []gtab.Subtable {
+		row := func(a, b, c, d funit.Int16) []*gtab.PairAdjust {
+			var out []*gtab.PairAdjust
+			for _, v := range []funit.Int16{a, b, c, d} {
+				out = append(out, &gtab.PairAdjust{First: &gtab.GposValueRecord{XAdvance: v}})
+			}
+			return out
+		}
+		return []gtab.Subtable{&gtab.Gpos2_2{
+			Cov:    coverage.Set{GA: true, GB: true, GL: true},
+			Class1: classdef.Table{GA: 1, GB: 3},
+			Class2: classdef.Table{GA: 3, GM: 1},
+			Adjust: [][]*gtab.PairAdjust{row(1, 2, 3, 4), row(5, 6, 7, 8), row(9, 10, 11, 12), row(13, 14, 15, 16)},
 		}}
 	}},
 	{"GPOS2.2 classes, class pairs without any adjustment", 2, func() []gtab.Subtable {
